@@ -1,7 +1,8 @@
 (* Extract/Extract.v — extraction of the executable models to OCaml for the correspondence
    checks.  ExtrOcamlBasic only: bool/option/unit/list/prod/sumbool map to OCaml's own;
    Z, N, positive, nat stay Coq's inductives.  No Extract Constant. *)
-From AV Require Import Base.Prelude Gen.ReaderPrims Model.Reader Model.ReaderExt Model.ReaderObs.
+From AV Require Import Base.Prelude Gen.ReaderPrims Model.Reader Model.ReaderExt Model.ReaderObs
+  Model.DepSizeExpr Gen.DepSizes Model.DepSize.
 Require Import ExtrOcamlBasic.
 Extraction Language OCaml.
 
@@ -14,4 +15,5 @@ Definition z_eqb := Z.eqb.
 
 Extraction "../ocaml/c14/model.ml"
   z_add z_mul z_opp z_div_eucl z_ltb z_eqb
-  rrun rinit xrun xinit.
+  rrun rinit xrun xinit
+  lib_all lib_arg_tys lib_spec_size lib_read_array_dep lib_item_fits args_ok.
